@@ -189,6 +189,13 @@ def run(db, tier):
               "as_binop_cond accepts `--x > 0` as a comparison: the if-block would get the condition `--x <= 0`, which no instruction implements, "
               "so the decompiled script cannot be compiled back")
 
+    # ---------------- R-GUARD-REL: the relations that guard the accept sites may only get stricter
+    from rules import guardrel
+    rep.rule("R-GUARD-REL", "each relation that was required on the way to an accept site (loop / if-else chain / break recovery) on the reviewed tree is "
+                            "still implied by a current guard with the same operands: guards may be added or tightened, not dropped, weakened or inverted")
+    n_gr = guardrel.check(db, rep, ["should_decompile_loop|Yes", "_gather_cond_chain|accept", "MakeBreakVisitor::visit_jump|break"])
+    rep.floor("frozen guard relations (decompile_loop)", n_gr, 5)
+
     # interrupt labels: gather_cond_chain accepts only after reject_potentially_confusing_cond_chain
     gc = db.fn(DL + "gather_cond_chain")
     rep.fn(gc)
